@@ -13,7 +13,7 @@ PROPS["C20"] = {
             "mid-rule / whole-rule / nonterminal-level arrows and arrows on empty rules, error rules ('error', 'error' x, x 'error', x 'error' y) in a third; per grammar 40 inputs: sentences of random derivations with blanks, newlines, "
             "comments and line comments sprinkled between any two tokens (before the first, after the last, several in a row, or none at all), and broken inputs (derivations through error rules, deleted / inserted / replaced tokens, "
             "invalid characters and unterminated comments next to comments), error handlers that continue or stop after the first or second error; every listener callback is recorded in report order; "
-            "half of the grammars are generated a second time with eventFields/eventAST and the stream is driven into the GENERATED builder.addNode (otherwise into the tm instance)",
+            "half of the grammars are generated a second time with eventFields/eventAST and the stream is driven into the GENERATED builder.addNode (otherwise into the tm instance); in c20.events every second input is parsed with one Parser per target that was initialised once; seeds with comments before and inside lookahead regions (js) and right before a syntax error (json, test)",
     "modelled": "gen/templates/go_ast_parse.go.tmpl builder.addNode (scan from the top while offset >= node offset, `end` moves once for every scanned entry starting at or after the end offset, three splice cases, parent/next/firstChild links) as Gram/TreeBuilder.v add_node. "
                 "Not modelled: the producers (parse loop with recovery, pending-token flushing of parser.go / stream.go, js hand-written loop); their streams are judged, not predicted "
                 "(grammar/gen.go HasTrailingNulls, go_parser.go.tmpl fixTrailingWS / reportRange / flush / recoverFromError and go_stream.go.tmpl flush run inside the generated parsers of c20.gen)",
